@@ -175,6 +175,8 @@ def sort_scalar(rng, fam):
 
 def gen_sort_case(rng):
     n = rng.choice([0, 1, 2, 3, 5, 8, 12, 20])
+    if rng.random() < 0.02:
+        n = rng.choice([130, 260])
     width = rng.choice([0, 0, 1, 2, 3])
     fams = [rng.choice(['num', 'nan', 'str', 'dt', 'none', 'mixed', 'mixed']) for _ in range(max(width, 1))]
     if width == 0:
@@ -217,6 +219,8 @@ def run_sort(case, ctx):
 # ------------------------------------------------------------------ dictable.sort
 def gen_dsort_case(rng):
     n = rng.choice([0, 1, 2, 3, 4, 6, 9, 14])
+    if rng.random() < 0.03:
+        n = rng.choice([129, 200, 300])       # long tables: any size-dependent path of the sorting code
     names = rng.sample(['a', 'b', 'c'], rng.randint(1, 3))
     fams = {c: rng.choice(['num', 'nan', 'str', 'dt', 'none', 'mixed']) for c in names}
     cols = {c: [sort_scalar(rng, fams[c]) for _ in range(n)] for c in names}
